@@ -43,6 +43,7 @@ from ngo.utils.ast import (
     Predicate,
     TranslationMap,
     collect_ast,
+    collect_binding_information_body,
     global_vars_inside_body,
     is_predicate,
     loc2str,
@@ -425,6 +426,10 @@ class MinMaxAggregator:
                 rest_vars.update(inside_variables.intersection(collect_ast(t, "Variable")))
         # variables that are used inside but also outside of the aggregate
         rest_vars_sorted: list[AST] = sorted(rest_vars)
+        # the chain rules consist of the element's condition and the joined literals: they have to bind their variables
+        bound, unbound = collect_binding_information_body(list(chain(elem.condition, lits_with_vars)))
+        if unbound or not rest_vars.issubset(bound):
+            return [rule]
 
         self.domain_predicates.add_domain_rule(
             Predicate(new_name, 1), [(head, list(chain(elem.condition, lits_with_vars)))]
